@@ -802,7 +802,7 @@ def rule_pathidx(ctx, prop: str) -> RuleResult:
     def to_form(t):  # noqa: F811
         import copy
 
-        return _tf(_Expand().visit(copy.deepcopy(t)))
+        return _tf(_Expand().visit(ast.parse(ast.unparse(t), mode="eval").body))
 
     def governing(call: ast.AST) -> tuple:
         conj = []
